@@ -314,6 +314,9 @@ def parse_assumptions(output):
             axs = []
             i += 1
             while i < len(lines) and lines[i].strip() and not lines[i].startswith(("COQC", "make", "File ")):
+                if "Closed under the global context" in lines[i] or lines[i].strip() == "Axioms:":
+                    i -= 1
+                    break
                 m = re.match(r"^([A-Za-z0-9_'.]+)\s*:", lines[i])
                 if m:
                     axs.append(m.group(1))
